@@ -4,7 +4,7 @@ import os
 
 import vlib
 
-PROPS = ['Rangers.Props.C02']
+PROPS = ['Rangers.Props.C02', 'Rangers.Props.C02Facts']
 DRIVERS = ['C02']
 META = dict(
     level='proof',
@@ -18,6 +18,15 @@ META = dict(
     rule='distinct op lines sent to both implementation and model whose model answer is not bad-op',
     explanation='see design/C02.md',
 )
+
+
+def gen(ctx):
+    """T-gen: re-extract constants / construction sites of src/storage/trie into Generated/C02Facts.lean."""
+    rc, so, se = vlib.go_run_gen(ctx, 'c02facts', [ctx.repo])
+    if rc != 0 or 'namespace Rangers.Generated.C02' not in so:
+        return dict(ok=False, error='c02facts failed: ' + (se or so)[-600:])
+    changed = vlib.write_if_changed(os.path.join(vlib.LEAN, 'Rangers', 'Generated', 'C02Facts.lean'), so)
+    return dict(ok=True, changed=changed, facts=len([l for l in so.split('\n') if l.startswith('def ')]))
 
 
 def correspond(ctx):
